@@ -1,10 +1,13 @@
 (* C20  Invalid requests are refused without side effects.
    In the model every mutator returns Ok new_state or Err; a run keeps the previous state on Err. The theorems say exactly which requests
    are refused (so the listed invalid kinds are all covered, in every reachable state) and that a refused request is invisible in any history.
-   The tie to the code - in particular the ORDER of validation and mutation inside the implementation - is the correspondence run. *)
+   The tie to the code is the correspondence run and, for the ORDER of validation and mutation inside seven mutators (lending_move, borrowing_move,
+   chip_transfer, set_fire, add_edge, set_firings, update_firings), the C20_source_* theorems below about the methods translated from the current
+   source: an exception never leaves a changed dictionary behind. *)
 From Coq Require Import ZArith List Bool Lia Arith.
 Import ListNotations.
-From CF Require Import ZSum ListAux Defs Core Machines MachinesLink.
+From Coq Require Import Permutation.
+From CF Require Import ZSum ListAux Defs Core Machines MachinesLink PyDict ImpRep TranslatedImpCFDivisor ImpLinkDiv TranslatedImpCFGraph ImpLinkGraph TranslatedImpCFiringScript ImpLinkScript.
 Open Scope Z_scope.
 
 (* graph: refused exactly on a loop, a non-positive multiplicity or an unknown endpoint *)
@@ -73,6 +76,35 @@ Print Assumptions C20_refused_is_invisible.
 Theorem C20_refused_edge_is_invisible : forall s a b k, add_edge s a b k = Err -> gapply s (GAdd a b k) = s.
 Proof. intros s a b k H. cbn [gapply]. now rewrite H. Qed.
 Print Assumptions C20_refused_edge_is_invisible.
+
+(* ---- the ORDER of validation and mutation, on the methods translated from /repo's CURRENT source (tools/translate_imp.py): whenever one of them ends
+   with an exception (PyExn st), the dictionaries it writes are exactly as before the call (st = the initial state). Under the representation hypotheses
+   this covers every exception the method can raise, including a KeyError in the middle of a loop ---- *)
+Theorem C20_source_divisor_moves_refused_without_effect : forall g, wfb g = true -> forall gg, rep_graph gg g -> forall dd D, rep_div (nv g) dd D ->
+  (forall v st, CFDivisor_lending_move gg dd v = PyExn st -> st = dd) /\
+  (forall v st, CFDivisor_borrowing_move gg dd v = PyExn st -> st = dd) /\
+  (forall a b k st, CFDivisor_chip_transfer dd a b k = PyExn st -> st = dd) /\
+  (forall (so : list nat -> list nat) U st, (forall s, Permutation (so s) s) -> CFDivisor_set_fire gg dd so U = PyExn st -> st = dd).
+Proof. intros g Hwf gg Hgg dd D HR. split; [|split; [|split]].
+  - intros v st E. pose proof (lending_move_refines g Hwf gg Hgg dd D v HR) as H. rewrite E in H. apply H.
+  - intros v st E. pose proof (borrowing_move_refines g Hwf gg Hgg dd D v HR) as H. rewrite E in H. apply H.
+  - intros a b k st E. pose proof (chip_transfer_refines g dd D a b k HR) as H. rewrite E in H. apply H.
+  - intros so U st Hso E. pose proof (set_fire_refines g Hwf gg Hgg dd D so U HR Hso) as H. rewrite E in H. apply H. Qed.
+Print Assumptions C20_source_divisor_moves_refused_without_effect.
+Theorem C20_source_add_edge_refused_without_effect : forall gg vtv tv s a b k st, ginv s -> rep_gstate gg vtv tv s ->
+  TranslatedImpCFGraph.CFGraph_add_edge gg vtv tv a b k = PyExn st -> st = (gg, vtv, tv) /\ add_edge s a b k = Err.
+Proof. intros gg vtv tv s a b k st Hi HR E. pose proof (add_edge_refines gg vtv tv s a b k Hi HR) as H. rewrite E in H. destruct H as [H1 H2]. split; assumption. Qed.
+Print Assumptions C20_source_add_edge_refused_without_effect.
+Theorem C20_source_script_refused_without_effect : forall n vs sd s v k st, rep_vset n vs -> rep_script n sd s ->
+  (CFiringScript_set_firings vs sd v k = PyExn st -> st = sd) /\ (CFiringScript_update_firings vs sd v k = PyExn st -> st = sd).
+Proof. intros n vs sd s v k st Hv Hs. split; intros E.
+  - pose proof (set_firings_refines n vs sd s v k Hv Hs) as H. rewrite E in H. apply H.
+  - pose proof (update_firings_refines n vs sd s v k Hv Hs) as H. rewrite E in H. apply H. Qed.
+Print Assumptions C20_source_script_refused_without_effect.
+Example C20_source_nonvacuous : let g := [[0;2;1];[2;0;0];[1;0;0]] in
+  CFDivisor_set_fire (dict_of_graph g) (dict_of_div [1;-1;0]) (@rev nat) [1;7]%nat = PyExn (dict_of_div [1;-1;0]) /\
+  CFDivisor_chip_transfer (dict_of_div [1;-1;0]) 0%nat 5%nat 2 = PyExn (dict_of_div [1;-1;0]).
+Proof. split; vm_compute; reflexivity. Qed.
 
 Example C20_nonvacuous : let g := [[0;1];[1;0]] in
   dstep g (dinit g [1;0]) (MFire [0;5;1]%nat) = Err /\ dstep g (dinit g [1;0]) (MFire [5;0]%nat) = Err /\ cstep g 1%nat (dinit g [1;0]) (MFire [0;1]%nat) = Err /\
